@@ -768,6 +768,47 @@ def d42():
     return with_tree(run)
 
 
+def d43():
+    """two first requests into the same archive write the ZIP index cache at the same time: with the dbm.dumb backend a store opened
+    with flag 'n' still reads the directory file - the one the other writer is half-way through writing - and the SyntaxError/ValueError
+    from there is not an OSError: it escapes save_cache() and the request fails"""
+    def run(d):
+        import zipfile as zf
+
+        os.mkdir(os.path.join(d, "dir"))
+        zp = os.path.join(d, "dir", "arch.zip")
+        with zf.ZipFile(zp, "w") as z:
+            z.writestr("m.txt", "hello")
+        cfg = make_config(root=d, conf="conf/pygopherd.conf")
+        cfg.set("handlers.ZIP.ZIPHandler", "enabled", "true")
+        hl = cfg.get("handlers.HandlerMultiplexer", "handlers")
+        cfg.set("handlers.HandlerMultiplexer", "handlers", hl.replace("[", "[ZIP.ZIPHandler, ", 1))
+        import dbm
+
+        if getattr(dbm, "_defaultmod", None) is not None and dbm._defaultmod.__name__ != "dbm.dumb":
+            return False, "another dbm backend is the default here"
+        ref, _, _ = request(b"/dir/arch.zip/m.txt\r\n", cfg)
+        for f in os.listdir(os.path.join(d, "dir")):
+            if f.startswith(".cache.pygopherd.zip3."):
+                os.unlink(os.path.join(d, "dir", f))
+        state = {"armed": True}
+
+        def hook(event, args):
+            # the other writer: its directory file appears, half written, right after this writer has created its data file
+            path = os.fsdecode(args[0]) if event == "open" and isinstance(args[0], (str, bytes)) else ""
+            if state["armed"] and path.endswith(".dat") and ".cache.pygopherd.zip3" in path and str(args[1]) == "w":
+                state["armed"] = False
+                fd = os.open(path[:-4] + ".dir", os.O_WRONLY | os.O_CREAT)
+                os.write(fd, b"'m.txt', (0, ")
+                os.close(fd)
+        sys.addaudithook(hook)
+        out, esc, log = request(b"/dir/arch.zip/m.txt\r\n", cfg)
+        state["armed"] = False
+        return out != ref, f"alone: {ref[:12]!r}; while another request writes the index: {out[:30]!r} escaped={type(esc).__name__ if esc else None} log={had_exception(log)}"
+
+    return with_tree(run)
+
+
 ALL = {k: v for k, v in list(globals().items()) if k.startswith("d") and k[1:2].isdigit() and callable(v)}
 ALL.pop("d8", None)
 
